@@ -37,7 +37,7 @@ PROPS = {
               ["Zap.C03_fresh_visit", "Zap.C03_visit_any_order", "Zap.C03_visit_sequence", "Zap.C03_reader_invariant",
                "Zap.C03_dvFieldNames", "Zap.C03_content", "Zap.C03_visit_built"], DV_FILES + STORED_FILES),
     "C04": _p([{"gen": "C04"}, {"gen": "C04", "vectors": True, "seed_offset": 13}], [], []),
-    "C05": _p([{"gen": "C05"}], ["ZapProofs.Props.C05"],
+    "C05": _p([{"regress": "d3_zero_survivors.script"}, {"gen": "C05"}], ["ZapProofs.Props.C05"],
               ["Zap.remapSeg_spec", "Zap.remapAll_spec", "Zap.newDocCount_eq", "Zap.C05_consecutive", "Zap.C05_bijection",
                "Zap.C05_count", "Zap.C05_maps", "Zap.C05_zero", "Zap.C05_stored", "Zap.mergedFieldNames_spec",
                "Zap.fieldsSame_sound"], MERGE_FILES),
@@ -45,22 +45,22 @@ PROPS = {
               ["Zap.enumerate_spec", "Zap.C06_dict", "Zap.C06_sorted", "Zap.C06_term", "Zap.C06_same_unchanged"], MERGE_FILES),
     "C07": _p([{"gen": "C07"}], ["ZapProofs.Props.C07"],
               ["Zap.C07_run", "Zap.C07_count", "Zap.C07_live", "Zap.C07_replace"], POST_FILES),
-    "C08": _p([{"gen": "C08"}], ["ZapProofs.Props.C08"],
+    "C08": _p([{"regress": "d1_stale_1hit.script"}, {"gen": "C08"}], ["ZapProofs.Props.C08"],
               ["Zap.C08_dict", "Zap.C08_stale_1hit_counterexample", "Zap.C08_merge_writes_wf"], MERGE_FILES),
     "C10": _p([{"gen": "C10"}, {"gen": "C10", "vectors": True, "seed_offset": 13},
                {"gen": "C10", "race": True, "seed_offset": 29, "n": {"quick": 12, "thorough": 200}}], [], []),
-    "C11": _p([{"gen": "C11"}, {"gen": "C11", "race": True, "seed_offset": 29, "n": {"quick": 12, "thorough": 200}}], [], []),
+    "C11": _p([{"regress": "d2_pool_double_put.script"}, {"gen": "C11"}, {"gen": "C11", "race": True, "seed_offset": 29, "n": {"quick": 12, "thorough": 200}}], [], []),
     "C12": _p([{"gen": "C12"}, {"gen": "C12", "vectors": True, "seed_offset": 13}], [], []),
-    "C13": _p([{"gen": "C13"}], [], []),
+    "C13": _p([{"regress": "d4_syn_empty_lhs.script"}, {"gen": "C13"}], [], []),
     "C17": _p([{"gen": "C17"}], [], []),
     "C18": _p([{"gen": "C18"}], [], []),
     "C20": _p([{"gen": "C20"}, {"gen": "C20", "race": True, "seed_offset": 29, "n": {"quick": 5, "thorough": 9}}], [], []),
     "C09": _p([{"frozen": "default"}, {"frozen": "vectors", "vectors": True}], [], []),
     "C14": _p([{"gen": "C14", "vectors": True}], [], [], replay_vectors=True),
     "C15": _p([{"gen": "C15", "vectors": True}], [], [], replay_vectors=True),
-    "C16": _p([{"gen": "C16", "vectors": True},
+    "C16": _p([{"regress": "d5_vec_cache_except.script", "vectors": True}, {"gen": "C16", "vectors": True},
                {"gen": "C16", "vectors": True, "race": True, "seed_offset": 29, "n": {"quick": 20, "thorough": 300}}], [], [], replay_vectors=True),
-    "C19": _p([{"gen": "C19", "vectors": True}], [], [], replay_vectors=True),
+    "C19": _p([{"regress": "d6_vec_build_error.script", "vectors": True}, {"gen": "C19", "vectors": True}], [], [], replay_vectors=True),
 }
 
 
